@@ -165,13 +165,16 @@ Section WithSqrt.
     fold_left (cache_step sps) rates (None, []).
 
   (* ---- BeamCXLine.emission (charge_exchange.pyx 116-167) ------------------------------------- *)
-  Definition cx_emission (sps : list species) (bfield : vec)
+  (* [csps], [line_*], [rates] are what the cache was populated from (the Species objects, the line and the
+     provider's rates at the time of _populate_cache); [sps] is the plasma's composition now: ion_density
+     and z_effective are read from the live plasma on every call. *)
+  Definition cx_emission_gen (csps sps : list species) (bfield : vec)
              (line_elem line_charge : Z) (rates : list cxrate)
              (beam_len beam_z att : Q) (dir : vec) (energy : Q) : outcome :=
-    match find_species sps line_elem (line_charge + 1) with
+    match find_species csps line_elem (line_charge + 1) with
     | None => ErrNoReceiver
     | Some rs =>
-      let cache := populate_cache sps rates in
+      let cache := populate_cache csps rates in
       let donor_density := beam_density beam_len beam_z att in
       if Qeq_bool donor_density 0 then Unchanged else
       let receiver_density := dens rs in
@@ -189,6 +192,11 @@ Section WithSqrt.
         end
       end
     end.
+  (* a model whose cache is fresh: cached composition = current composition *)
+  Definition cx_emission (sps : list species) (bfield : vec)
+             (line_elem line_charge : Z) (rates : list cxrate)
+             (beam_len beam_z att : Q) (dir : vec) (energy : Q) : outcome :=
+    cx_emission_gen sps sps bfield line_elem line_charge rates beam_len beam_z att dir energy.
 
   (* ---- BeamEmissionLine._beam_emission_rate / emission (beam_emission.pyx 99-170) --------------- *)
   Definition bes_step (bv : vec) (dsum : Q) (rate : Q) (sc : species * rate3) : Q :=
